@@ -264,7 +264,7 @@ func classOf(e *actionlint.Error) int {
 			return clParser
 		case has("undefined variable"), has("undefined function"), has("property ") && strings.Contains(m, " is not defined in object type"):
 			return clUndef
-		case has("receiver of object dereference"), has("number of arguments is wrong"), strings.Contains(m, "argument of function call is not assignable"):
+		case has("receiver of object dereference"), has("number of arguments is wrong"), strings.Contains(m, "argument of function call is not assignable"), has("index access operand must be type of"):
 			return clType
 		case strings.Contains(m, "is potentially untrusted"):
 			return clUntrusted
@@ -278,7 +278,7 @@ func classOf(e *actionlint.Error) int {
 		switch {
 		case has("unexpected key "), has("both \"username\" and \"password\" must be specified"):
 			return clKey
-		case strings.Contains(m, " event should not be listed in sequence"):
+		case strings.Contains(m, " event should not be listed in sequence"), has("element of \"schedule\" section must be mapping"):
 			return clValue
 		case has("key ") && strings.Contains(m, " is duplicated"):
 			return clDupKey
@@ -297,6 +297,9 @@ func classOf(e *actionlint.Error) int {
 	case "events":
 		if has("unknown Webhook event") || has("invalid activity type") {
 			return clValue
+		}
+		if has("both \"") && strings.Contains(m, "filters cannot be used for the same event") {
+			return clKey
 		}
 	}
 	return clOther
@@ -487,6 +490,18 @@ func place(doc *ynode, site string, src string, flow bool, gap, above int) *ynod
 		ty := strings.TrimSuffix(strings.TrimPrefix(site, "call."), "-default")
 		doc.get("on").set("workflow_call", mp("inputs", mp("n", mp("type", ty, "default", v))))
 		v.above = above
+	case "on.schedule-element":
+		l := sq(mp("cron", "0 0 * * *"), mp("cron", "0 12 * * *"), v)
+		l.flow = flow
+		if flow {
+			for _, e := range l.vals[:2] {
+				e.flow = true
+			}
+			l.above = above
+		} else {
+			v.above = above
+		}
+		doc.get("on").set("schedule", l)
 	case "on.seq-schedule", "on.seq-dispatch":
 		l := sq("push", "issues", v)
 		if site == "on.seq-dispatch" {
@@ -645,9 +660,14 @@ func genInner(r *hx.Rng, kind string, style int, bare bool) (plantExpr, string) 
 			return mk("github.event[zzq]", "github.event[zzq]", 13), v
 		}
 	case "type":
-		vs := []string{"deref-string", "argcount", "argtype", "restarg2", "restarg3"}
+		vs := []string{"deref-string", "argcount", "argtype", "restarg2", "restarg3", "index-non-indexable", "index-non-indexable-2"}
 		v := vs[r.Intn(len(vs))]
+		w := ws(r)
 		switch v {
+		case "index-non-indexable": // reported at the operand, wherever the index stands inside the brackets
+			return mk("github.event_name["+w+"0 ]", "github.event_name["+w+"0 ]", 0), v
+		case "index-non-indexable-2":
+			return mk("runner.os["+w+"github.run_id ]", "runner.os["+w+"github.run_id ]", 0), v
 		case "restarg2": // variadic parameter: the offending argument is the 2nd / 3rd one
 			return mk("hashFiles(1, github)", "hashFiles(1, github)", 13), v
 		case "restarg3":
@@ -796,7 +816,10 @@ func genLayout(r *hx.Rng, s *Spec) {
 
 var keySites = []string{"top", "job", "step", "strategy", "on.push", "step.with-flow", "job.env-dup", "step.env-dup", "step.with-dup", "top.env-dup",
 	// a key that is reported for what its mapping lacks (credentials without a password)
-	"container.credentials", "service.credentials"}
+	"container.credentials", "service.credentials",
+	// two filters that exclude each other, the flow mapping broken over two lines with the LATER key
+	// in a smaller column: the later key is the one reported
+	"on.push-exclusive-2lines"}
 
 func genKeySpec(r *hx.Rng, id int) Spec {
 	s := Spec{ID: id, Family: "key"}
@@ -818,7 +841,9 @@ var valueSites = []string{"job.continue-on-error", "job.timeout-minutes", "step.
 	"matrix.exclude-expr", "job.env-expr", "matrix-expr",
 	// the default of a typed workflow_call input given by a placeholder of another type; an event
 	// that cannot be listed in the sequence form of on:
-	"call.number-default", "call.boolean-default", "on.seq-schedule", "on.seq-dispatch"}
+	"call.number-default", "call.boolean-default", "on.seq-schedule", "on.seq-dispatch",
+	// an element of on.schedule that is not a mapping with a cron key (reported at the element)
+	"on.schedule-element"}
 
 // the ill-typed section values (plain or double-quoted: they contain single quotes)
 var sectionExprText = map[string]string{
@@ -832,6 +857,7 @@ var fixedValueText = map[string]string{
 	"call.boolean-default": "${{ github.ref }}",
 	"on.seq-schedule":      "schedule",
 	"on.seq-dispatch":      "repository_dispatch",
+	"on.schedule-element":  "zzqnotcron",
 }
 
 func genValueSpec(r *hx.Rng, id int) Spec {
@@ -851,7 +877,7 @@ func genValueSpec(r *hx.Rng, id int) Spec {
 	}
 	if t, ok := fixedValueText[s.Site]; ok {
 		s.Text = t
-		s.Flow = strings.HasPrefix(s.Site, "on.seq") && r.Chance(1, 2)
+		s.Flow = (strings.HasPrefix(s.Site, "on.seq") || s.Site == "on.schedule-element") && r.Chance(1, 2)
 	}
 	s.Marker, s.Delta = s.Text, 0
 	return s
@@ -1005,6 +1031,16 @@ func build(s Spec) (*Built, error) {
 			job.get("steps").vals[0] = st
 			m = st
 		}
+		if s.Site == "on.push-exclusive-2lines" {
+			key = quote(s.KeyStyle, "paths")
+			push := mp("paths-ignore", sq("docs"), "branches", sq("main"), key, sq("src"))
+			push.flow = true
+			push.above = s.Above
+			doc.get("on").set("push", push)
+			scalarSrc = key + ": [src]"
+			bt.Quoted = s.KeyStyle != 0
+			break
+		}
 		if strings.HasSuffix(s.Site, ".credentials") {
 			key = quote(s.KeyStyle, "credentials")
 			cred := mp("username", "u")
@@ -1114,6 +1150,11 @@ func build(s Spec) (*Built, error) {
 		ci := sp(keyInd + 2)
 		body := ci + "echo a\n" + ci + "echo ${{ github.sha }} ${{\n" + ci + "  zzq }}\n" + ci + "echo ${{ 1 }}"
 		file = file[:idx] + scalarSrc + "\n" + body + file[idx+len("@@BLOCK@@"):]
+	}
+	if s.Site == "on.push-exclusive-2lines" {
+		// `push: {paths-ignore: [docs], branches: [main], paths: [src]}` -> the last key on a line of its own, one column in
+		i := strings.Index(file, scalarSrc)
+		file = strings.TrimRight(file[:i], " ") + "\n " + file[i:]
 	}
 	if s.Last {
 		file = strings.TrimRight(file, "\n")
